@@ -39,6 +39,22 @@ fn fixed_sm2_ct_base(sel: u8) -> c06::Base {
     c06::Base { d: Hex(expand_bytes(0xe0 + (sel % 2) as u64, 32)), msg_len: [1usize, 16, 33, 64][(sel as usize / 4) % 4], msg_seed: 7, compressed: sel & 1 == 1, c1c3c2: sel & 2 == 2, k: Hex(expand_bytes(0xe8, 32)) }
 }
 
+fn multi_from(a: u32, b: u8) -> crate::props::multi::Multi {
+    use crate::props::multi::Multi;
+    let (i, j, m) = ((a >> 8) as u8, (a >> 16) as u8, (a >> 24) as u8);
+    match a % 9 {
+        0 => Multi::XorPair(i, j, if m == 0 { 1 } else { m }),
+        1 => Multi::AddSub(i, j, if m == 0 { 1 } else { m }),
+        2 => Multi::Rotate(i),
+        3 => Multi::Shuffle(i % 6),
+        4 => Multi::Random(a as u64 ^ ((b as u64) << 32)),
+        5 => Multi::Complement,
+        6 => Multi::Fill(i),
+        7 => Multi::KeepPrefix(i),
+        _ => Multi::KeepSuffix(i),
+    }
+}
+
 /// Decode and check one fuzz input. Ok(()) also for inputs that decode to nothing useful.
 pub fn run_target(target: &str, data: &[u8]) -> Result<(), Fail> {
     let mut u = Unstructured::new(data);
@@ -57,7 +73,8 @@ pub fn run_target(target: &str, data: &[u8]) -> Result<(), Fail> {
             let kind: u8 = u.arbitrary().unwrap_or(0);
             let a: u16 = u.arbitrary().unwrap_or(0);
             let b: u8 = u.arbitrary().unwrap_or(0);
-            let tamper = match kind % 12 {
+            let tamper = match kind % 13 {
+                11 => c04::Tamper::Multi(b, multi_from(a as u32 * 65537 + b as u32, b)),
                 0 => c04::Tamper::FlipBit(a % 512),
                 1 => c04::Tamper::SetComponent(b % 2, (a % 8) as u8),
                 2 => c04::Tamper::SEqualsNMinusR,
@@ -79,7 +96,8 @@ pub fn run_target(target: &str, data: &[u8]) -> Result<(), Fail> {
             let kind: u8 = u.arbitrary().unwrap_or(0);
             let a: u32 = u.arbitrary().unwrap_or(0);
             let b: u8 = u.arbitrary().unwrap_or(0);
-            let tamper = match kind % 10 {
+            let tamper = match kind % 11 {
+                9 => c06::Tamper::Multi(b, multi_from(a, b)),
                 0 => c06::Tamper::FlipBit(a),
                 1 => c06::Tamper::Truncate(a as u16),
                 2 => c06::Tamper::Extend(b, a as u8),
@@ -113,7 +131,8 @@ pub fn run_target(target: &str, data: &[u8]) -> Result<(), Fail> {
             let kind: u8 = u.arbitrary().unwrap_or(0);
             let a: u32 = u.arbitrary().unwrap_or(0);
             let b: u8 = u.arbitrary().unwrap_or(0);
-            let tamper = match kind % 8 {
+            let tamper = match kind % 9 {
+                7 => c10::Tamper::Multi(b, multi_from(a, b)),
                 0 => c10::Tamper::FlipBit(a),
                 1 => c10::Tamper::Truncate(a as u16),
                 2 => c10::Tamper::Extend(a as u16, b),
